@@ -204,7 +204,7 @@ def make_tracks():
 
 def _inst(tier):
     if tier == "quick":
-        return [{"n_notes": 1, "n_ctrl": 2}, {"n_notes": 2, "n_ctrl": 1}, {"n_notes": 2, "n_ctrl": 2},
+        return [{"n_notes": 1, "n_ctrl": 2}, {"n_notes": 2, "n_ctrl": 1},
                 {"n_notes": 1, "n_ctrl": 2, "two_thr": True}, {"n_notes": 2, "n_ctrl": 0},
                 {"n_notes": 1, "n_ctrl": 0, "preset": True, "two_thr": True}, {"n_notes": 1, "n_ctrl": 1, "preset": True}]
     return [{"n_notes": 1, "n_ctrl": 2}, {"n_notes": 2, "n_ctrl": 1}, {"n_notes": 2, "n_ctrl": 2},
